@@ -45,12 +45,16 @@ def memo_functions(model: Model) -> List[FunctionInfo]:
 def check(model: Model, rep: Report, tier: str):
     cg = CallGraph(model)
     ef = Effects(model, cg)
-    h1(model, rep, cg, ef)
-    h2(model, rep, cg, ef)
-    h3(model, rep)
+    with rep.isolated():
+        h1(model, rep, cg, ef)
+    with rep.isolated():
+        h2(model, rep, cg, ef)
+    with rep.isolated():
+        h3(model, rep)
     from .c05 import _k4
-    share_rule(rep, model, _k4, "C03.H4", "classes used as dictionary keys while copying are hashable and their generated equality compares all "
-               "instance-distinguishing state (= C05.K4): otherwise reading `operations` before copying / nesting changes the result")
+    with rep.isolated():
+        share_rule(rep, model, _k4, "C03.H4", "classes used as dictionary keys while copying are hashable and their generated equality compares all "
+                   "instance-distinguishing state (= C05.K4): otherwise reading `operations` before copying / nesting changes the result")
     rep.analysed["call graph"] = dict(cg.res.stats)
 
 
